@@ -20,6 +20,40 @@ def sh(cmd, cwd=None, timeout=900, env=None):
         return -999, (ex.stdout or b"").decode("utf-8", "replace") + "\nTIMEOUT"
 
 
+def run_check(out, pid, wt):
+    t0 = time.time()
+    rc, o = sh("python3 check.py %s" % pid, cwd=V, env={"VERIF_REPO": wt, "VERIF_SEED": "1"}, timeout=2400)
+    out["check_rc"] = rc
+    out["check_wall_s"] = round(time.time() - t0, 1)
+    vl = [l for l in o.split("\n") if l.startswith("VIOLATION")]
+    out["violation_lines"] = vl
+    out["detected"] = rc == 1 and bool(vl)
+    out["concrete_input"] = any("no-failing-input-found" not in l for l in vl)
+    whats = []
+    for l in vl:
+        m = re.search(r"replay=(\S+)", l)
+        if m and os.path.exists(m.group(1)):
+            try:
+                r = json.load(open(m.group(1)))
+                whats.append(r.get("what", "")[:300])
+                kinds = sorted({b.get("kind", "?") for b in r.get("broken", [])}) if isinstance(r.get("broken"), list) else []
+                if kinds:
+                    whats.append("broken: " + ",".join(kinds))
+            except Exception:
+                pass
+    out["check_what"] = whats
+
+
+def check_only(out, d, pid, wt, name, prev):
+    out.update({k: prev.get(k) for k in ("tests_pass", "demo_ok")})
+    run_check(out, pid, wt)
+    mp = os.path.join(V, "seeded", name, "meta.json")
+    meta = json.load(open(mp))
+    meta["check_result"] = {k: out.get(k) for k in ("check_rc", "detected", "concrete_input", "violation_lines", "check_what", "check_wall_s")}
+    json.dump(meta, open(mp, "w"), indent=1)
+    return out
+
+
 def evaluate(src, name):
     d = os.path.join(src, name)
     pid = name.split("-")[0]
@@ -39,6 +73,17 @@ def evaluate(src, name):
         if rc != 0:
             out["error"] = "patch does not apply: " + o[-300:]
             return out
+        prev = {}
+        if os.environ.get("SEEDEVAL_CHECK_ONLY"):
+            # re-run of the check only: the confirmation (test suite, demonstration) recorded earlier is kept
+            try:
+                prev = json.load(open(os.path.join(V, "seeded", name, "meta.json"))).get("confirmed_by_lead", {})
+            except Exception:
+                prev = {}
+            if not (prev.get("tests_pass") and prev.get("demo_ok")):
+                prev = {}
+        if prev:
+            return check_only(out, d, pid, wt, name, prev)
         rc, o = sh("make -j8 > /dev/null 2>&1; echo rc=$?", cwd=wt)
         out["builds"] = "rc=0" in o
         rc, o = sh("make check -j6 2>&1 | grep -E '^# (TOTAL|PASS|FAIL|ERROR|SKIP)'", cwd=os.path.join(wt, "test"), timeout=1500)
